@@ -59,6 +59,32 @@ Section Proofs.
     destruct (step S l s0) as [s1|] eqn:E; [|discriminate]. apply (IH s1); [eapply oinv_step; eauto|exact H].
   Qed.
 
+  (* ---------------- order does not depend on how the caller and the reader race on the flags ---------------- *)
+  Definition havoc (s : st) (a sd : bool) : st :=
+    {| todo := todo S s; ph := ph S s; ack := a; stored := sd; queue := queue S s; dev_pending := dev_pending S s;
+       from_dev := from_dev S s; received := received S s; outcomes := outcomes S s; termd := termd S s; calls := calls S s;
+       stamps := stamps S s; temitted := temitted S s |}.
+  Inductive rlabel := RStep (l : label) | RHavoc (a sd : bool).
+  Fixpoint rrun (ls : list rlabel) (s : st) : option st :=
+    match ls with
+    | [] => Some s
+    | RStep l :: ls' => match step S l s with Some s' => rrun ls' s' | None => None end
+    | RHavoc a sd :: ls' => rrun ls' (havoc s a sd)
+    end.
+
+  (* delivery order, exactly once, unmodified: also when the acknowledgement flag and the stored error are overwritten
+     with arbitrary values at arbitrary moments (every race between write() and the reader callback on them) *)
+  Theorem order_racy stmts k ls s : rrun ls (init S stmts k) = Some s ->
+    received S s ++ queue S s = firstn (calls S s) stmts.
+  Proof.
+    intros H. assert (OInv stmts s) as [_ _ Hr]; [|exact Hr].
+    revert H. generalize (oinv_init stmts k). generalize (init S stmts k).
+    induction ls as [|l ls IH]; intros s0 Hi H; cbn in H; [injection H as <-; exact Hi|].
+    destruct l as [l'|a sd].
+    - destruct (step S l' s0) as [s1|] eqn:E; [|discriminate]. apply (IH s1); [eapply oinv_step; eauto|exact H].
+    - apply (IH (havoc s0 a sd)); [|exact H]. destruct Hi as [A B D]. constructor; cbn; assumption.
+  Qed.
+
   (* ---------------- synchrony from a quiescent start, no unsolicited error lines ---------------- *)
   Record SInv (s : st) : Prop := {
     s_calls : calls S s = (length (queue S s) + length (received S s))%nat;
